@@ -88,7 +88,8 @@ def r_label_recovery(repo, rep, R='R12.4'):
         if out != 'return':
             continue
         asked = any(e[0] in ('loop-enter', 'loop-skip') and e[1] == it for e in st.events) or any(x_ == it for t_ in ([st.ret] if st.ret else []) for x_ in subterms(t_)) \
-            or any(e[0] == 'call' and e[1] == it for e in st.events)
+            or any(e[0] == 'call' and e[1] == it for e in st.events) \
+            or any(x_ == it for c_, _p, _n in st.conds for x_ in subterms(c_))       # the answer depends on a test of what the rules returned
         if not asked:
             unasked.append('; '.join('%s%s' % ('' if pol else 'not ', show(c)[:40]) for c, pol, _ in st.conds[-2:]))
     rep.check(not unasked, R, w, 'guess:always-asks', 'every answer is given after asking the rules for this pair',
